@@ -120,6 +120,21 @@ def hook(w, job, part):
         elif op == 'util_init': util_restart('init'); touched = None
         elif op == 'util_delete': util_restart('delete'); touched = None
         elif op == 'audit': ti = rnd.randrange(len(w.m.toks)); audit(ti); touched = ti
+        elif op == 'inittoken':
+            before = [(tt.label, tt.usr) for tt in w.m.toks]; w.op_inittoken(); touched = token_of_last(w)
+            for tt, (l0, u0) in zip(w.m.toks, before):
+                if tt.label == l0: continue
+                # the re-initialisation succeeded: in THIS library instance the token must carry the new label, have no user PIN, and the old user PIN must not log in
+                ti = w.c('C_GetTokenInfo', slot=tt.slot); got = bytes.fromhex(ti.get('label', '')).rstrip(b' ')
+                if ti['rv'] != 0 or got != tt.label: w.F('C14', 'C_InitToken|re-init|label-not-applied', 'after re-initialisation C_GetTokenInfo does not show the new label', got=got, want=tt.label)
+                if ti['rv'] == 0 and (ti['flags'] & ck.CKF_USER_PIN_INITIALIZED): w.F('C14', 'C_InitToken|re-init|user-pin-flag-still-set', 'CKF_USER_PIN_INITIALIZED survives a re-initialisation')
+                if u0 is not None:
+                    r = w.c('C_OpenSession', slot=tt.slot)
+                    if r['rv'] == 0:
+                        w.m.new_handle(r['h'], 'probe-session'); rl = w.c('C_Login', s=r['h'], user=1, pin=u0.hex())
+                        if rl['rv'] == 0: w.F('C14', 'C_InitToken|re-init|old-user-pin-still-logs-in', 'the user PIN that the re-initialisation removed still authenticates in the same library instance', got=rl['rvname'])
+                        w.c('C_CloseSession', s=r['h'])
+                    w.cov('C14', ('reinit-old-user-pin-probe',))
         else: getattr(w, 'op_' + op)(); touched = token_of_last(w)
         n0 = len(w.findings); w.mon_state(dead_sample=2); w.mon_handles(dead_sample=4)
         # a state/handle disagreement on a token the call did not touch is an isolation failure
